@@ -630,7 +630,7 @@ func keyOf(addr *types.Address) *harness.Key {
 	if addr == nil {
 		return nil
 	}
-	cands := []*harness.Key{harness.Pauper(), harness.DetKey("empty-account")}
+	cands := []*harness.Key{harness.Pauper(), harness.DetKey("empty-account"), harness.DetKey("poor-deployer")}
 	for i := 0; i < 4; i++ {
 		cands = append(cands, harness.User(i), harness.AdminKey(i))
 	}
@@ -932,6 +932,9 @@ func mon07Case(w *vlog.W, a *wargs, id int, rng *rand.Rand, opts harness.Options
 	sort.Strings(sh)
 	if id == a.From {
 		w.Sample(map[string]interface{}{"case": id, "opts": opts, "kinds": sh})
+	}
+	for k, n := range g.kinds {
+		w.Count("tx:"+k, int64(n))
 	}
 	w.CaseDone(fmt.Sprintf("audit%v|%s", !opts.NoAudit, strings.Join(sh, ",")), true)
 }
